@@ -6,4 +6,5 @@ export CARGO_NET_OFFLINE=true
 python3 tools/extract.py > /dev/null
 (cd lean && lake build Emu8086 emu_driver)
 (cd harness && cargo build --offline)
+RUSTFLAGS="--cfg yjdoc2_8086_emulator_verif" cargo build --offline --manifest-path /repo/Cargo.toml --target-dir build/target-cli
 echo setup-ok
